@@ -1,5 +1,5 @@
 import NetVerif.Proofs.Lemmas.FlowHistory
-import NetVerif.Model.FlowMonitor
+import NetVerif.Proofs.Lemmas.FlowMonitor
 /-!
 C10 — HTTP/2 inbound flow-control credit is never leaked.
 
@@ -76,5 +76,116 @@ example : (Ledger.start 65535).run [.take 65535, .add 65535] = some ⟨⟨65535,
 example : (Ledger.start 2147483647).run [.add 1] = none := by decide
 example : NoOverRefund (Ledger.start 65535) [.take 100, .add 100] := by
   simp [NoOverRefund, Ledger.step, Ledger.start, Inflow.new, Inflow.init, Inflow.take, Inflow.add, maxWindow, inflowMinRefresh]
+
+/-! ## Part B — the trace monitor -/
+
+open NetVerif.Model.FlowMonitor NetVerif.Proofs.FlowMon
+
+/-- A WINDOW_UPDATE(0) is only accepted if the resulting peer view is ≤ 2^31-1. -/
+theorem monitor_wu_checked (fc : Option Nat) (m m' : Mon) (n : Int) (h : obsStep fc m (.wu 0 n) = .ok m') :
+    m'.conn = m.conn + n ∧ m'.conn ≤ maxWindow ∧ m'.sumWU = m.sumWU + n ∧ m'.conn ≤ m'.configured + m'.over := by
+  simp only [obsStep, if_true] at h
+  split at h
+  · cases h
+  · split at h
+    · cases h
+    · cases h
+      dsimp only
+      refine ⟨rfl, ?_, rfl, ?_⟩ <;> omega
+
+/-- **No receive window above 2^31-1 on any accepted trace**, at every line boundary: the
+connection window and every stream window; and the monitor's connection window is literally
+`65535 + Σ WINDOW_UPDATE(0) − Σ DATA within the windows` (the peer's view). -/
+theorem monitor_windows_bounded (pre suf : List Line) (m : Mon) (h : run Mon.init (pre ++ suf) = .ok m) :
+    ∃ mp, run Mon.init pre = .ok mp ∧ mp.conn ≤ maxWindow ∧ (∀ s ∈ mp.streams, s.win ≤ maxWindow) ∧
+      mp.conn = initialWindowSize + mp.sumWU - mp.sumData := by
+  obtain ⟨mp, h1, _⟩ := run_append pre suf Mon.init m h
+  have i := run_inv pre Mon.init mp minv_init h1
+  exact ⟨mp, h1, i.conn_le, fun s hs => (i.streams s hs).1, i.ghost⟩
+
+/-- Credit withheld at a quiescent point, from the peer's side. -/
+def Residue (m : Mon) : Int := m.configured + m.over - m.conn
+
+/-- **C10.holds_partial.** Whenever the monitor accepts a `quiesce` line on a live connection,
+the peer's view `65535 + Σ WINDOW_UPDATE − Σ DATA` equals `configured + over − residue` with
+`0 ≤ residue`, and `residue = 0` or `residue < inflowMinRefresh ∧ residue < window`;
+`over` is the number of body bytes read by handlers after `closeStream` (the double refund).
+Outside the excluded region (`over = 0`, `residue = 0`) the view is exactly the configured size. -/
+theorem holds_partial (m m' : Mon) (obs : List Obs) (hm : MInv m)
+    (h : liveLine m .quiesce obs = .ok m') (hd : m'.dead = false) :
+    initialWindowSize + m'.sumWU - m'.sumData = m'.configured + m'.over - Residue m' ∧
+    0 ≤ Residue m' ∧
+    (Residue m' = 0 ∨ (Residue m' < inflowMinRefresh ∧ Residue m' < m'.conn)) ∧
+    (m'.over = 0 → Residue m' = 0 → initialWindowSize + m'.sumWU - m'.sumData = m'.configured) := by
+  have hi := liveLine_inv m m' .quiesce obs hm h
+  have hg := hi.ghost
+  unfold liveLine at h
+  simp only [actStep] at h
+  by_cases hdead : m.dead = true
+  · simp only [hdead, if_true] at h
+    cases h
+    rw [hd] at hdead
+    cases hdead
+  · simp only [hdead] at h
+    cases hf : obsFold none m obs with
+    | error e => simp only [hf] at h; cases h
+    | ok m1 =>
+      simp only [hf, finishLine] at h
+      by_cases hr : (m1.dead || residueOK m1) = true
+      · simp only [hr, if_true] at h
+        cases h
+        dsimp only at hd hg ⊢
+        unfold Residue
+        dsimp only
+        rw [hd] at hr
+        simp only [Bool.false_or, residueOK, Bool.and_eq_true, Bool.or_eq_true, decide_eq_true_eq] at hr
+        omega
+      · simp only [hr] at h
+        by_cases hneg : m1.configured + m1.over - m1.conn < 0 <;> simp [hneg] at h
+
+/-- The literal statement: on every accepted trace, at `quiesce` on a live connection the
+peer's view of the connection window is back to the configured size. -/
+def FullStatement : Prop :=
+  ∀ (tr : List Line) (m : Mon), run Mon.init (tr ++ [⟨.quiesce, []⟩]) = .ok m → m.dead = false →
+    initialWindowSize + m.sumWU - m.sumData = m.configured
+
+/-- Witness 1 (by design): one 100-byte body read to EOF — no WINDOW_UPDATE is owed
+(corpus/C10/witness.server.ops case 0 is this trace recorded from the real server). -/
+def witnessResidue : List Line :=
+  [⟨.reset 1048576 1048576, [.set 1048576, .wu 0 983041, .other]⟩,
+   ⟨.hdr 1 (-1) false, []⟩,
+   ⟨.data 1 100 (-1) true, []⟩,
+   ⟨.read 1, [.rd 1 100]⟩,
+   ⟨.read 1, [.rd 1 0, .other]⟩,
+   ⟨.hexit 1, [.other]⟩]
+
+/-- Witness 2 (defect): 48000 buffered bytes, peer resets the stream (48000 refunded), the
+handler then reads the 48000 bytes and they are refunded again (corpus case 1). -/
+def witnessOverRefund : List Line :=
+  [⟨.reset 1048576 1048576, [.set 1048576, .wu 0 983041, .other]⟩,
+   ⟨.hdr 1 (-1) false, []⟩,
+   ⟨.data 1 16000 (-1) false, []⟩,
+   ⟨.data 1 16000 (-1) false, []⟩,
+   ⟨.data 1 16000 (-1) false, []⟩,
+   ⟨.crst 1, [.wu 0 48000]⟩,
+   ⟨.read 1, [.rd 1 48000, .wu 0 48000]⟩,
+   ⟨.hexit 1, []⟩]
+
+theorem witnessResidue_accepted :
+    ∃ m, run Mon.init (witnessResidue ++ [⟨.quiesce, []⟩]) = .ok m ∧ m.dead = false ∧
+      m.over = 0 ∧ initialWindowSize + m.sumWU - m.sumData = m.configured - 100 :=
+  ⟨_, rfl, rfl, rfl, by decide⟩
+
+theorem witnessOverRefund_accepted :
+    ∃ m, run Mon.init (witnessOverRefund ++ [⟨.quiesce, []⟩]) = .ok m ∧ m.dead = false ∧
+      m.over = 48000 ∧ initialWindowSize + m.sumWU - m.sumData = m.configured + 48000 :=
+  ⟨_, rfl, rfl, rfl, by decide⟩
+
+/-- **C10.full_false.** The literal statement is false of the code as it is. -/
+theorem full_false : ¬ FullStatement := by
+  intro h
+  obtain ⟨m, h1, h2, _, h4⟩ := witnessResidue_accepted
+  have := h witnessResidue m h1 h2
+  omega
 
 end NetVerif.Proofs.C10
